@@ -345,9 +345,15 @@ def manXml (own : String) (m : Man) : Elem :=
      .leaf "MAN_DELTA_MASS" [("units", "kg")] (.s "-0.001"), leafS "MAN_REF_FRAME" (manFrameOut own m)] ++
     (["MAN_DV_1", "MAN_DV_2", "MAN_DV_3"].zip m.dv).map fun (k, v) => Elem.leaf k [("units", "km/s")] v)
 
+def udLeaf (kv : String × String) : Elem := .leaf "USER_DEFINED" [("parameter", kv.1)] (.s kv.2)
+
 def udXml : Option (List (String × String)) → List Elem
   | none => []
-  | some kvs => [.node "userDefinedParameters" (kvs.map fun (k, v) => Elem.leaf "USER_DEFINED" [("parameter", k)] (.s v))]
+  | some [] => if xmlUdSkipsEmpty then [] else [.node "userDefinedParameters" []]
+  | some kvs => [.node "userDefinedParameters" (kvs.map udLeaf)]
+
+def kepXml (ks : List Txt) : Elem :=
+  .node "keplerianElements" ((kepKeys.zip ks).map fun ((k, u), v) => Elem.leaf k (unitAttrib u) v)
 
 /-- `opm._dumps_xml` -/
 def opmXml (m : Opm) : R Elem := do
@@ -355,10 +361,7 @@ def opmXml (m : Opm) : R Elem := do
   pure <| .node "opm" [headerXml, .node "body" [.node "segment" [
     metaXml m.name m.id center rframe m.scale [],
     .node "data" ([svXml m.epoch m.state] ++
-      (match m.kep with
-       | some ks => [Elem.node "keplerianElements" ((kepKeys.zip ks).map fun ((k, u), v) => Elem.leaf k (unitAttrib u) v)]
-       | none => []) ++
-      (match m.cov with | some c => [covXml none c] | none => []) ++
+      m.kep.toList.map kepXml ++ m.cov.toList.map (covXml none) ++
       m.mans.map (manXml m.frame) ++ udXml m.ud)]]]
 
 /-- the centre rule of the readers; only the Earth-centred branch is modelled -/
@@ -438,6 +441,13 @@ def segPath (data : Dict) : R (Dict × Dict) := do
   let dt ← asDict (← getItem seg "data")
   pure (md, dt)
 
+/-- `ud[field.attrib["parameter"]] = field.text` -/
+def readUdField : Val → R (String × String)
+  | .field (.s t) a => match a.lookup "parameter" with
+    | some k => .ok (k, t)
+    | none => .error .keyError
+  | _ => .error .attrError
+
 /-- the `userDefinedParameters` block of the OPM / OMM XML readers -/
 def xmlUd (wrap : Bool) (dt : Dict) : R (Option (List (String × String))) := do
   match dt.lookup "userDefinedParameters" with
@@ -448,19 +458,12 @@ def xmlUd (wrap : Bool) (dt : Dict) : R (Option (List (String × String))) := do
     | none => pure none
     | some g =>
       let fields ← iterGroup wrap .attrError g
-      let kvs ← fields.mapM fun f => match f with
-        | .field (.s t) a => match a.lookup "parameter" with
-          | some k => pure (k, t)
-          | none => .error .keyError
-        | _ => .error .attrError
+      let kvs ← fields.mapM readUdField
       pure (if kvs.isEmpty then none else some kvs)
 
-/-- `opm._loads_xml` on the dict built by `xml2dict` -/
-def opmFromXmlDict (data : Dict) : R Opm := do
-  let (md, dt) ← segPath data
-  let sv ← asDict (← getItem dt "stateVector")
-  let mansV := dt.lookup "maneuverParameters"
-  let (name, id, scale, frame, epoch, state) ← keyErrToCcsds (do
+/-- the mandatory block of `opm._loads_xml` (inside `try … except KeyError`) -/
+def opmHeadFromXml (md sv : Dict) : R (String × String × String × String × Txt × List Txt) :=
+  keyErrToCcsds (do
     let name ← strOf md "OBJECT_NAME"
     let id ← strOf md "OBJECT_ID"
     let scale ← strOf md "TIME_SYSTEM"
@@ -469,13 +472,27 @@ def opmFromXmlDict (data : Dict) : R Opm := do
     let frame ← centreRule center frame
     let (epoch, state) ← loadSv sv
     pure (name, id, scale, frame, epoch, state))
-  let raws ← match mansV with
+
+/-- the maneuver loop of `opm._loads_xml` -/
+def opmMansFromXml (frame : String) (dt : Dict) : R (List Man) := do
+  let raws ← match dt.lookup "maneuverParameters" with
     | some v => iterGroup wrapOpmManeuver .typeError v >>= fun xs => xs.mapM asDict
     | none => pure []
-  let mans ← raws.mapM (loadMan frame)
-  let cov ← match dt.lookup "covarianceMatrix" with
-    | some v => do let c ← asDict v; some <$> loadCov frame c
-    | none => pure none
+  raws.mapM (loadMan frame)
+
+/-- `if cov: orb.cov = load_cov(orb, cov)` of the OPM / OMM XML readers -/
+def covFromXml (frame : String) (dt : Dict) : R (Option CovM) :=
+  match dt.lookup "covarianceMatrix" with
+  | some v => do let c ← asDict v; some <$> loadCov frame c
+  | none => pure none
+
+/-- `opm._loads_xml` on the dict built by `xml2dict` -/
+def opmFromXmlDict (data : Dict) : R Opm := do
+  let (md, dt) ← segPath data
+  let sv ← asDict (← getItem dt "stateVector")
+  let (name, id, scale, frame, epoch, state) ← opmHeadFromXml md sv
+  let mans ← opmMansFromXml frame dt
+  let cov ← covFromXml frame dt
   let ud ← xmlUd wrapOpmUd dt
   pure { name := name, id := id, frame := frame, scale := scale, epoch := epoch, state := state, kep := none,
          cov := cov, mans := mans, ud := ud }
@@ -525,7 +542,7 @@ def ommXml (m : Omm) : R Elem := do
         [Elem.leaf "GM" [("units", "km**3/s**2")] (.s "398600.8")]),
       Elem.node "tleParameters" ([leafS "EPHEMERIS_TYPE" "0", leafS "CLASSIFICATION_TYPE" "U"] ++
         (ommTleKeys.zip m.tle).map (fun ((k, _), v) => Elem.leaf k [] v))] ++
-      (match m.cov with | some c => [covXml none c] | none => []) ++ udXml m.ud)]]]
+      m.cov.toList.map (covXml none) ++ udXml m.ud)]]]
 
 def loadOmmCore (md me tp : Dict) : R (String × String × String × String × Txt × List Txt × List Txt) := do
   let (name, id, scale, frame, epoch) ← keyErrToCcsds (do
@@ -568,9 +585,7 @@ def ommFromXmlDict (data : Dict) : R Omm := do
   let me ← asDict (← getItem dt "meanElements")
   let tp ← asDict (← getItem dt "tleParameters")
   let (name, id, scale, frame, epoch, elems, tle) ← loadOmmCore md me tp
-  let cov ← match dt.lookup "covarianceMatrix" with
-    | some v => do let c ← asDict v; some <$> loadCov frame c
-    | none => pure none
+  let cov ← covFromXml frame dt
   let ud ← xmlUd wrapOmmUd dt
   pure { name := name, id := id, frame := frame, scale := scale, epoch := epoch, elems := elems, tle := tle,
          cov := cov, ud := ud, hasTle := false }
@@ -756,6 +771,21 @@ def loadOemKvn (ls : List Line) : R Oem := do
   | some (mt, pts) => do pure (st.done ++ [← finishSeg mt pts])
   | none => pure st.done
 
+/-- body of the `for statevector in …` loop of `oem._loads_xml` -/
+def loadPointXml (md : Dict) (v : Val) : R Point := do
+  let d ← asDict v
+  let x ← decodeUnit d "X" "km"
+  let y ← decodeUnit d "Y" "km"
+  let z ← decodeUnit d "Z" "km"
+  let vx ← decodeUnit d "X_DOT" "km/s"
+  let vy ← decodeUnit d "Y_DOT" "km/s"
+  let vz ← decodeUnit d "Z_DOT" "km/s"
+  let epoch ← textOf d "EPOCH"
+  let _ ← strOf md "TIME_SYSTEM"
+  let _ ← strOf md "OBJECT_NAME"
+  let _ ← strOf md "OBJECT_ID"
+  pure ({ epoch := epoch, state := [x, y, z, vx, vy, vz], cov := none } : Point)
+
 def loadSegXml (seg : Dict) : R Seg := keyErrToCcsds do
   let md ← asDict (← getItem seg "metadata")
   let dt ← asDict (← getItem seg "data")
@@ -763,19 +793,7 @@ def loadSegXml (seg : Dict) : R Seg := keyErrToCcsds do
   let center ← strOf md "CENTER_NAME"
   let frame ← centreRule center frame
   let svs ← iterGroup wrapOemStateVector .typeError (← getItem dt "stateVector")
-  let pts ← svs.mapM fun v => do
-    let d ← asDict v
-    let x ← decodeUnit d "X" "km"
-    let y ← decodeUnit d "Y" "km"
-    let z ← decodeUnit d "Z" "km"
-    let vx ← decodeUnit d "X_DOT" "km/s"
-    let vy ← decodeUnit d "Y_DOT" "km/s"
-    let vz ← decodeUnit d "Z_DOT" "km/s"
-    let epoch ← textOf d "EPOCH"
-    let _ ← strOf md "TIME_SYSTEM"
-    let _ ← strOf md "OBJECT_NAME"
-    let _ ← strOf md "OBJECT_ID"
-    pure ({ epoch := epoch, state := [x, y, z, vx, vy, vz], cov := none } : Point)
+  let pts ← svs.mapM (loadPointXml md)
   let covs ← match dt.lookup "covarianceMatrix" with
     | some v => iterGroup wrapOemCov .typeError v
     | none => pure []
@@ -855,12 +873,15 @@ def tdmKvn (m : Tdm) : R (List Line) := do
       [.word "META_STOP", .blank, .word "DATA_START"] ++ obs ++ [.word "DATA_STOP", .blank]
   pure <| header "CCSDS_TDM_VERS" "1.0" ++ [.blank] ++ segs.flatten
 
+/-- one `observation` element -/
+def obsXml (o : Obs) : R Elem := do
+  pure (Elem.node "observation" [Elem.leaf "EPOCH" [] o.epoch, Elem.leaf (← tdmName o.kind) [] o.value])
+
 /-- `tdm._dumps_xml` -/
 def tdmXml (m : Tdm) : R Elem := do
   if (tdmSets m).any (fun ps => (dedup ps.1).length > 9) then .error .valueError
   let segs ← (tdmSets m).mapM fun (path, set) => do
-    let obs ← set.mapM fun o => do
-      pure (Elem.node "observation" [Elem.leaf "EPOCH" [] o.epoch, Elem.leaf (← tdmName o.kind) [] o.value])
+    let obs ← set.mapM obsXml
     pure <| Elem.node "segment" [.node "metadata" ((tdmMeta m.scale path set).map fun (k, v) => Elem.leaf k [] v), .node "data" obs]
   pure <| .node "tdm" [headerXml, .node "body" segs]
 
@@ -929,6 +950,19 @@ def loadTdmKvn (ls : List Line) : R (String × List (List Obs)) := do
   let st ← tdmFold ls {}
   pure (st.scale, st.sets)
 
+/-- body of the `for obs in …` loop of `tdm._loads_xml` -/
+def loadObsXml (angle : Option String) (path : List String) (v : Val) : R Obs := do
+  let d ← asDict v
+  let date ← textOf d "EPOCH"
+  match d.filter (fun kv => kv.1 ≠ "EPOCH") with
+  | (key, fv) :: _ => do
+    let value ← fv.text
+    let kind ← tdmKind key (match angle with
+      | some a => .ok a
+      | none => .error .unboundLocal)
+    pure ({ kind := kind, path := path, epoch := date, value := value } : Obs)
+  | [] => .error .valueError
+
 /-- one segment of `tdm._loads_xml`; `angle` is the local variable `angle_type`, which survives from
 one segment to the next -/
 def loadTdmSegXml (angle : Option String) (seg : Dict) : R (Option String × String × List Obs) := do
@@ -942,17 +976,7 @@ def loadTdmSegXml (angle : Option String) (seg : Dict) : R (Option String × Str
     | none => pure angle
   let dt ← asDict (← getItem seg "data")
   let obsV ← iterGroup wrapTdmObservation .attrError (← getItem dt "observation")
-  let obs ← obsV.mapM fun v => do
-    let d ← asDict v
-    let date ← textOf d "EPOCH"
-    match d.filter (fun kv => kv.1 ≠ "EPOCH") with
-    | (key, fv) :: _ => do
-      let value ← fv.text
-      let kind ← tdmKind key (match angle with
-        | some a => .ok a
-        | none => .error .unboundLocal)
-      pure ({ kind := kind, path := path, epoch := date, value := value } : Obs)
-    | [] => .error .valueError
+  let obs ← obsV.mapM (loadObsXml angle path)
   pure (angle, scale, obs)
 
 def tdmSegsXml : List Val → Option String → R (List (String × List Obs))
